@@ -1607,7 +1607,9 @@ class ResultsPage(object):
             raise ValueError("pagenum must be >= 1")
 
         self.pagecount = int(ceil(self.total / pagelen))
-        self.pagenum = min(self.pagecount, pagenum)
+        # (With no hits there are no pages; stay on page 1 so the offset and
+        # page length come out as 0 instead of -pagelen and pagelen)
+        self.pagenum = max(1, min(self.pagecount, pagenum))
 
         offset = (self.pagenum - 1) * pagelen
         if (offset + pagelen) > self.total:
